@@ -103,9 +103,10 @@ type Task struct {
 	want    *sync.Mutex
 	site    string
 	fn      func()
-	Panic   any    // recovered panic value of a client task
-	PanicAt string // stack of that panic
-	prio    int    // PCT priority
+	Panic   any       // recovered panic value of a client task
+	PanicAt string    // stack of that panic
+	prio    int       // PCT priority
+	wakeAt  time.Time // parked in a simulated sleep until this instant
 }
 
 // Strategy kinds (chosen per run).
@@ -360,7 +361,11 @@ func (s *Sched) snapshot() (parked []*Task, clientsDone bool, nClientsLive int) 
 
 func (s *Sched) enabledOf(parked []*Task) []*Task {
 	var en []*Task
+	now := time.Now()
 	for _, t := range parked {
+		if !t.wakeAt.IsZero() && now.Before(t.wakeAt) {
+			continue // still asleep on the simulated clock
+		}
 		if t.want == nil || tryFree(t.want) {
 			en = append(en, t)
 		}
@@ -494,7 +499,21 @@ func (s *Sched) Run() runVerdict {
 				s.Stats.Deadlock = true
 				return runVerdict{Deadlock: true, Detail: s.describe(parked) + s.blockedClients()}
 			}
-			s.advance(3 * time.Second)
+			// jump to the earliest simulated wake-up if some task sleeps, else let a little time pass
+			d := 3 * time.Second
+			var earliest time.Time
+			for _, t := range parked {
+				if !t.wakeAt.IsZero() && (earliest.IsZero() || t.wakeAt.Before(earliest)) {
+					earliest = t.wakeAt
+				}
+			}
+			if !earliest.IsZero() {
+				if dd := time.Until(earliest); dd > 0 {
+					d = dd
+				}
+				idleRounds = 0
+			}
+			s.advance(d)
 			continue
 		}
 		idleRounds = 0
@@ -566,4 +585,28 @@ func (s *Sched) Tasks() []*Task {
 	s.mu.Lock()
 	defer s.mu.Unlock()
 	return append([]*Task(nil), s.tasks...)
+}
+
+// Sleep parks the calling client task for d of simulated time. Unlike time.Sleep, waking up is
+// a scheduling decision: several tasks due at the same instant are released one at a time.
+func (s *Sched) Sleep(d time.Duration) {
+	s.mu.Lock()
+	on := s.parking
+	s.mu.Unlock()
+	if !on {
+		time.Sleep(d)
+		return
+	}
+	t := s.current("sleep", "")
+	if t == nil {
+		time.Sleep(d)
+		return
+	}
+	s.mu.Lock()
+	t.wakeAt = time.Now().Add(d)
+	s.mu.Unlock()
+	s.park(t, nil, "sleep")
+	s.mu.Lock()
+	t.wakeAt = time.Time{}
+	s.mu.Unlock()
 }
